@@ -312,9 +312,13 @@ def check_property(pid, tier, seed):
     nat_by = {(r["target"], r["behaviour"]): r for r in nat}
     native_fail_reported = set()
     models_asked = [0]
+    stale_invariants, triage_notes = triage_loop_invariants(plan, pid, ex, failed, nat_by, known, smt_dir, timeout)
     for o, r in failed:
         tb = (o.meta.get("function"), o.meta.get("behaviour"))
         nr = nat_by.get(tb)
+        if o.id in stale_invariants:
+            errors.append("stale loop invariant %s: %s" % (o.id, stale_invariants[o.id]))
+            continue
         detail = {"clause_kind": o.kind, "note": o.note, "path": o.meta.get("labels"), "solver": r["times"],
                   "smt_file": r["file"]}
         k0 = match_known(known, o.id, None)
@@ -474,6 +478,70 @@ def check_property(pid, tier, seed):
     if undecided:
         return 2
     return 0
+
+
+UNROLL = 3
+
+
+def triage_loop_invariants(plan, pid, ex, failed, nat_by, known, smt_dir, timeout):
+    """A loop invariant is an auxiliary annotation of the PROOF, not a clause of the property: when the only obligations of a
+    function that fail are `inv-init` / `inv-keep` of loops whose contract is a plain invariant, and the native run of the
+    executable contract found no failing input either, the function is re-executed with those loops UNROLLED (up to UNROLL
+    iterations, no invariant used) and its own clauses are checked on those real paths.  A clause that fails there is a
+    violation (reported under its own name).  If every clause holds on every execution of up to UNROLL iterations, the
+    invariant no longer fits the loop (the loop was restructured): that is a stale contract - a checker error, exit 3 -
+    not a violation of the property.  Returns ({obligation id: reason}, extra failed (obligation, result) pairs)."""
+    groups = {}
+    for o, r in failed:
+        groups.setdefault((o.meta.get("function"), o.meta.get("behaviour")), []).append(o)
+    stale, extra = {}, []
+    for tb, obs in groups.items():
+        c = ex.store.contracts.get(tb[0])
+        if c is None or tb[1] not in c.behaviours:
+            continue
+        if any(match_known(known, o.id, None) for o in obs):
+            continue
+        beh = c.behaviours[tb[1]]
+        loops = beh.loops if beh.loops is not None else c.loops
+        plain = {k for k, lc in loops.items() if engine.Executor.plain_loop(lc)}
+        ok, n_inv = True, 0
+        for o in obs:
+            m = re.search(r"/inv-(init|keep):\d+@loop(\d+)", o.id)
+            if o.kind == "inv" and m and int(m.group(2)) in plain:
+                n_inv += 1
+            elif not any(("loop%d" % k) in (o.meta.get("labels") or []) for k in plain):
+                # a clause failing on a path that never went through a cut loop does not depend on any invariant
+                ok = False
+        ok = ok and n_inv > 0
+        nr = nat_by.get(tb) or {}
+        if not ok or nr.get("failures") or nr.get("error"):
+            continue
+        ex2 = build_executor(plan)
+        ex2.unroll_depth = UNROLL
+        try:
+            ex2.verify(c, tb[1])
+        except (engine.Unsupported, engine.CheckerError):
+            continue
+        except Exception:
+            continue
+        obl2 = [o for o in ex2.obligations if pid in o.props]
+        if not obl2:
+            continue
+        for o in obl2:
+            o.id = o.id + "(loops unrolled <=%d)" % UNROLL
+        res2 = solve.discharge_all(obl2, os.path.join(smt_dir, "unrolled"), timeout=timeout, jobs=16)
+        bad = [(o, r) for o, r in zip(obl2, res2) if r["verdict"] == "sat"]
+        if bad:
+            extra.extend(bad)          # real paths, no invariant: the clause itself fails
+            continue
+        n_unknown = sum(1 for r in res2 if r["verdict"] != "unsat")
+        for o in obs:
+            stale[o.id] = ("the invariant does not hold for the loop as it is written now, but all %d clause obligations of %s[%s] hold on "
+                           "every execution with at most %d iterations (loops unrolled, no invariant; %d paths needing more iterations "
+                           "cut, %d undecided) and the native run found no failing input: the loop contract needs re-fitting, the property "
+                           "is not shown violated" % (len(obl2), tb[0].split("::")[-1], tb[1], UNROLL, ex2.unroll_cut, n_unknown))
+    failed.extend(extra)
+    return stale, extra
 
 
 def match_known(known, oid, witness):
